@@ -10,6 +10,7 @@ import (
 	"fmt"
 	"runtime/debug"
 	"strings"
+	"sync"
 )
 
 // Chooser decides every nondeterministic choice of one execution.
@@ -49,6 +50,7 @@ type Thread struct {
 	// race-mode sync cells: syncA is released by this thread before it parks,
 	// syncB is released by the partner that completes a rendezvous for it.
 	syncA, syncB *byte
+	syncGo       *byte // released by the parent at the go statement, acquired by the thread when it starts
 }
 
 type PanicInfo struct {
@@ -101,6 +103,7 @@ type Exec struct {
 	keepKeys  bool
 	stateKey  uint64
 	digest    func() uint64
+	holdBr    bool
 	opts      []*Thread
 	costs     []int8
 	objVer    []uint32
@@ -127,6 +130,9 @@ type Config struct {
 	KeepTrace bool
 	KeepKeys  bool
 	User      any
+	// HoldBranching: choice points are marked "not to be branched on" until the body calls BranchFromHere (a long
+	// deterministic preamble, e.g. 65536 frames to reach a serial wrap, is then run once per execution but not explored)
+	HoldBranching bool
 	// Digest (optional) summarises the harness-visible state; the explorer's state cache compares it whenever two
 	// executions reach the same state key (a difference means the key is too coarse: the run is declared broken)
 	Digest func() uint64
@@ -140,9 +146,10 @@ func Run(body func(), ch Chooser, cfg Config) *Result {
 	if cur != nil {
 		panic("vs.Run: nested execution")
 	}
+	addrNext = 0 // rewind the pool of race-annotation addresses (see SyncAddr)
 	e := &Exec{ch: ch, mainWake: make(chan struct{}, 1), exitAck: make(chan struct{}, 1),
-		horizon: cfg.Horizon, keepTrace: cfg.KeepTrace, keepKeys: cfg.KeepKeys, digest: cfg.Digest, User: cfg.User,
-		joinAddr: new(byte)}
+		horizon: cfg.Horizon, keepTrace: cfg.KeepTrace, keepKeys: cfg.KeepKeys, digest: cfg.Digest, holdBr: cfg.HoldBranching, User: cfg.User,
+		joinAddr: SyncAddr()}
 	if e.horizon == 0 {
 		e.horizon = 200000
 	}
@@ -179,17 +186,89 @@ func Run(body func(), ch Chooser, cfg Config) *Result {
 
 //go:norace
 func (e *Exec) newThread(name string, fn func()) *Thread {
-	t := &Thread{ID: len(e.threads), Name: name, wake: make(chan struct{}, 1), syncA: new(byte), syncB: new(byte)}
+	t := &Thread{ID: len(e.threads), Name: name, wake: make(chan struct{}, 1), syncA: SyncAddr(), syncB: SyncAddr(), syncGo: SyncAddr()}
 	t.op = &Op{Kind: "start", W: alwaysReady{}}
 	e.threads = append(e.threads, t)
-	go threadRoot(e, t, fn)
+	// the go statement's happens-before edge (parent before child): threads run on pooled goroutines, so the race
+	// runtime does not see a goroutine creation here
+	raceReleaseAddr(t.syncGo)
+	startOnPooledGoroutine(poolJob{e, t, fn})
 	return t
+}
+
+// Threads of all executions run on a pool of long-lived goroutines: the race runtime keeps memory for every goroutine
+// it has ever seen (about 1 KB each, never returned), and an exploration starts ~10 goroutines per execution, millions
+// of times. The pool's own bookkeeping is hidden from the race detector (RaceDisable) so that it orders nothing.
+type poolJob struct {
+	e  *Exec
+	t  *Thread
+	fn func()
+}
+
+var (
+	poolMu   sync.Mutex
+	poolIdle [8192]chan poolJob // a fixed array, no append: runtime.growslice carries race hooks
+	poolN    int
+)
+
+//go:norace
+func poolPop() chan poolJob {
+	poolMu.Lock()
+	defer poolMu.Unlock()
+	if poolN == 0 {
+		return nil
+	}
+	poolN--
+	ch := poolIdle[poolN]
+	poolIdle[poolN] = nil
+	return ch
+}
+
+//go:norace
+func poolPush(ch chan poolJob) bool {
+	poolMu.Lock()
+	defer poolMu.Unlock()
+	if poolN == len(poolIdle) {
+		return false
+	}
+	poolIdle[poolN] = ch
+	poolN++
+	return true
+}
+
+//go:norace
+func startOnPooledGoroutine(j poolJob) {
+	raceDisable()
+	ch := poolPop()
+	if ch == nil {
+		ch = make(chan poolJob, 1)
+		go poolWorker(ch)
+	}
+	ch <- j
+	raceEnable()
+}
+
+//go:norace
+func poolWorker(ch chan poolJob) {
+	for {
+		raceDisable()
+		j := <-ch
+		raceEnable()
+		threadRoot(j.e, j.t, j.fn)
+		raceDisable()
+		ok := poolPush(ch)
+		raceEnable()
+		if !ok {
+			return
+		}
+	}
 }
 
 func threadRoot(e *Exec, t *Thread, fn func()) {
 	raceDisable()
 	<-t.wake
 	raceEnable()
+	raceAcquireAddr(t.syncGo)
 	defer threadExit(e, t)
 	if isAborting(e) {
 		panic(abortSentinel{})
@@ -349,6 +428,44 @@ func Choose(kind string, costs []int8) int {
 	}
 	return i
 }
+
+// SyncAddr hands out an address for race-detector annotations (RaceAcquire/RaceRelease). The addresses come from a
+// pool that is rewound at the start of every execution: the race runtime keeps per-address metadata that it does not
+// give back, so fresh addresses per execution make a long exploration grow without bound (about 13 KB per execution
+// of a server scenario). Re-using an address only adds happens-before edges from an EARLIER execution, which are
+// implied anyway by the join edge between executions.
+//
+//go:norace
+func SyncAddr() *byte {
+	if !RaceEnabled {
+		return nil
+	}
+	if addrNext == len(addrPool) {
+		addrPool = append(addrPool, new(byte))
+	}
+	a := addrPool[addrNext]
+	addrNext++
+	return a
+}
+
+var (
+	addrPool []*byte
+	addrNext int
+)
+
+// BranchFromHere ends the preamble of an execution started with HoldBranching.
+//
+//go:norace
+func BranchFromHere() {
+	if cur != nil {
+		cur.holdBr = false
+	}
+}
+
+// Held reports whether choice points are currently exempt from branching.
+//
+//go:norace
+func Held() bool { return cur != nil && cur.holdBr }
 
 // PointKey is the state key at the moment of a choice (for the explorer's state cache), with the harness digest.
 //
